@@ -49,15 +49,26 @@ type c12Err struct{}
 func (c12Err) Error() string { return "c12 injected failure" }
 
 type c12Handled struct {
-	ID    int
-	Th    int64 // handler entry, ns since base
-	Hturn int64 // latest turn-entry stamp before the handler entry
-	Rt    int64 // the runtime's own activity stamp (wall UnixNano) sampled at handler entry
-	Dwell int64
+	ID     int
+	Th     int64 // handler entry, ns since base
+	ThW    int64 // handler entry, wall UnixNano
+	Hturn  int64 // latest turn-entry stamp before the handler entry
+	HturnW int64 // same, wall UnixNano
+	Rt     int64 // the runtime's own activity stamp (wall UnixNano) sampled at handler entry
+	Dwell  int64
+}
+
+// c12Decision is one call of the manager's passivate step for the actor (observed through
+// the manager's passivateFn indirection): the deadline the entry carried when it was popped.
+type c12Decision struct {
+	At        int64 // ns since base
+	DeadlineW int64 // entry.deadline, wall UnixNano (0 for message-count entries)
+	Result    bool
 }
 
 type c12Stop struct {
 	Tp            int64
+	DeadlineW     int64 // deadline of the decision that ran this PostStop (passivation only)
 	ByPassivation bool
 	Paused        bool
 	Suspended     bool
@@ -70,11 +81,13 @@ type c12State struct {
 	base time.Time
 	pid  atomic.Pointer[PID]
 
-	turnEnter atomic.Int64
+	turnEnter  atomic.Int64
+	turnEnterW atomic.Int64
 
-	mu      sync.Mutex
-	handled []c12Handled
-	stops   []c12Stop
+	mu        sync.Mutex
+	handled   []c12Handled
+	stops     []c12Stop
+	decisions []c12Decision
 }
 
 func (s *c12State) now() int64 { return int64(time.Since(s.base)) }
@@ -127,6 +140,13 @@ func (a *c12Actor) PostStop(*Context) error {
 	tp := st.now()
 	stack := verifrt.Stack()
 	rec := c12Stop{Tp: tp, ByPassivation: strings.Contains(stack, "tryPassivation"), Stack: stack}
+	if rec.ByPassivation {
+		st.mu.Lock()
+		if n := len(st.decisions); n > 0 {
+			rec.DeadlineW = st.decisions[n-1].DeadlineW
+		}
+		st.mu.Unlock()
+	}
 	if pid := st.pid.Load(); pid != nil {
 		rec.Paused = pid.isStateSet(passivationPausedState)
 		rec.Suspended = pid.isStateSet(suspendedState)
@@ -144,7 +164,8 @@ func (a *c12Actor) Receive(ctx *ReceiveContext) {
 		return
 	}
 	st := a.st
-	rec := c12Handled{ID: m.ID, Th: st.now(), Hturn: st.turnEnter.Load(), Dwell: int64(m.Dwell)}
+	tnow := time.Now()
+	rec := c12Handled{ID: m.ID, Th: int64(tnow.Sub(st.base)), ThW: tnow.UnixNano(), Hturn: st.turnEnter.Load(), HturnW: st.turnEnterW.Load(), Dwell: int64(m.Dwell)}
 	if pid := st.pid.Load(); pid != nil {
 		rec.Rt = pid.latestReceiveTimeNano.Load()
 	}
@@ -171,8 +192,47 @@ func c12TurnHook(s any, enter bool) {
 	}
 	if v, ok := c12Registry.Load(s); ok {
 		st := v.(*c12State)
-		st.turnEnter.Store(st.now())
+		tnow := time.Now()
+		st.turnEnter.Store(int64(tnow.Sub(st.base)))
+		st.turnEnterW.Store(tnow.UnixNano())
 	}
+}
+
+// c12InstallDecisionHook routes the manager's passivate step through the harness: it
+// records the deadline the popped entry carries, then runs the real passivation attempt.
+func c12InstallDecisionHook(sys *actorSystem) {
+	pm := sys.passivator
+	fn := func(entry *passivationEntry) bool {
+		if entry == nil || entry.target == nil {
+			return false
+		}
+		pm.mu.Lock()
+		dl := entry.deadline
+		target := entry.target
+		reason := passivationReason(entry)
+		pm.mu.Unlock()
+		var st *c12State
+		if v, ok := c12Registry.Load(target); ok {
+			st = v.(*c12State)
+			d := c12Decision{At: st.now()}
+			if !dl.IsZero() {
+				d.DeadlineW = dl.UnixNano()
+			}
+			st.mu.Lock()
+			st.decisions = append(st.decisions, d)
+			st.mu.Unlock()
+		}
+		res := target.passivationTry(reason)
+		if st != nil {
+			st.mu.Lock()
+			st.decisions[len(st.decisions)-1].Result = res
+			st.mu.Unlock()
+		}
+		return res
+	}
+	pm.mu.Lock()
+	pm.passivateFn = fn
+	pm.mu.Unlock()
 }
 
 type c12Scenario struct {
@@ -204,6 +264,7 @@ type c12Result struct {
 	Stops      int
 	MinMargin  time.Duration // min over judged pairs of (tp - hturn) - (T - slack)
 	MaxGap     time.Duration // max (th - runtime stamp)
+	Literal    int           // passivations with a handler entered less than T-100ms before
 	Notes      []string
 	Viol       []verifrt.Violation
 	Inconc     string
@@ -520,59 +581,65 @@ func c12Run(t *testing.T, sys *actorSystem, sc c12Scenario) (res c12Result) {
 			}
 		default:
 			bound := int64(T - c12Slack)
-			for i, h := range handled {
-				if h.Th > p.Tp {
-					continue
-				}
-				gap := time.Duration(0)
-				if h.Rt != 0 {
-					gap = time.Duration(st.base.UnixNano() + h.Th - h.Rt)
-					if gap > res.MaxGap {
-						res.MaxGap = gap
+			// (a) deadline arithmetic, immune to stalls: the entry was popped no earlier than
+			// the deadline D it carried; every message whose handler was entered before D had
+			// published its activity before the pop, so D must cover it.
+			if p.DeadlineW != 0 {
+				for _, h := range handled {
+					if h.ThW > p.DeadlineW || h.HturnW == 0 {
+						continue
 					}
-				}
-				marginTurn := (p.Tp - h.Hturn) - bound
-				marginLiteral := (p.Tp - h.Th) - bound
-				if time.Duration(marginTurn) < res.MinMargin {
-					res.MinMargin = time.Duration(marginTurn)
-				}
-				if marginTurn < 0 {
-					// which class: did this message's turn begin only after the deadline computed
-					// from the previous activity could already have expired (the decision and the
-					// stop are not atomic w.r.t. message handling), or should it have refreshed
-					// the deadline (deadline arithmetic)?
-					prev := int64(0) // Spawn was called after base
-					if i > 0 {
-						prev = handled[i-1].Hturn
+					m := (p.DeadlineW - h.HturnW) - bound
+					if time.Duration(m) < res.MinMargin {
+						res.MinMargin = time.Duration(m)
 					}
-					sig := "passivated-within-timeout:" + sc.Kind
-					if h.Hturn-prev >= bound {
-						sig = "late-message-handled-then-passivated"
-					}
-					viol(sig, map[string]any{
-						"timeout": T.String(), "message_id": h.ID, "turn_entry_ns": h.Hturn, "handler_entry_ns": h.Th, "poststop_entry_ns": p.Tp,
-						"previous_activity_ns": prev, "idle_before_this_message": time.Duration(h.Hturn - prev).String(),
-						"elapsed_since_turn_entry": time.Duration(p.Tp - h.Hturn).String(), "required_at_least": time.Duration(bound).String(),
-					})
-					break
-				}
-				if marginLiteral < 0 && sc.Kind == "long-turn" && c12JudgeLongTurnLiterally {
-					// explained by handlers of the same turn that ran before this one
-					var earlier int64
-					for _, e := range handled[:i] {
-						if e.Hturn == h.Hturn {
-							earlier += e.Dwell
-						}
-					}
-					if earlier >= -marginLiteral {
-						viol("passivated-while-busy:long-turn", map[string]any{
-							"timeout": T.String(), "message_id": h.ID, "handler_entry_ns": h.Th, "poststop_entry_ns": p.Tp,
-							"elapsed_since_handler_entry": time.Duration(p.Tp - h.Th).String(), "required_at_least": time.Duration(bound).String(),
-							"turn_entry_ns": h.Hturn, "handler_time_earlier_in_turn": time.Duration(earlier).String(),
+					if m < 0 {
+						viol("passivated-within-timeout:deadline-arithmetic", map[string]any{
+							"timeout": T.String(), "message_id": h.ID, "turn_entry_wall_ns": h.HturnW, "handler_entry_wall_ns": h.ThW, "deadline_wall_ns": p.DeadlineW,
+							"deadline_minus_turn_entry": time.Duration(p.DeadlineW - h.HturnW).String(), "required_at_least": time.Duration(bound).String(),
 						})
 						break
 					}
 				}
+			} else {
+				res.Notes = append(res.Notes, "passivation PostStop without an observed decision")
+			}
+			// (b) the statement read literally on monitor stamps: a handler entered less than
+			// T-100ms before the PostStop entry
+			for i, h := range handled {
+				if h.Th > p.Tp {
+					continue
+				}
+				if h.Rt != 0 {
+					if gap := time.Duration(h.ThW - h.Rt); gap > res.MaxGap {
+						res.MaxGap = gap
+					}
+				}
+				marginLiteral := (p.Tp - h.Th) - bound
+				if marginLiteral >= 0 {
+					continue
+				}
+				res.Literal++
+				detail := map[string]any{
+					"timeout": T.String(), "message_id": h.ID, "turn_entry_ns": h.Hturn, "handler_entry_ns": h.Th, "poststop_entry_ns": p.Tp,
+					"elapsed_since_handler_entry": time.Duration(p.Tp - h.Th).String(), "required_at_least": time.Duration(bound).String(),
+					"decision_deadline_minus_handler_entry": time.Duration(p.DeadlineW - h.ThW).String(),
+				}
+				var earlier int64
+				for _, e := range handled[:i] {
+					if e.Hturn == h.Hturn {
+						earlier += e.Dwell
+					}
+				}
+				if sc.Kind == "long-turn" && earlier >= -marginLiteral {
+					if c12JudgeLongTurnLiterally {
+						detail["handler_time_earlier_in_turn"] = time.Duration(earlier).String()
+						viol("passivated-while-busy:long-turn", detail)
+					}
+				} else {
+					viol("message-handled-then-passivated:decision-not-atomic", detail)
+				}
+				break
 			}
 			switch sc.Kind {
 			case "pause", "pause-traffic", "suspend":
@@ -612,7 +679,7 @@ func c12Gen(rng *rand.Rand, i int) c12Scenario {
 func TestVerif_C12(t *testing.T) {
 	r := verifrt.Start(t, "C12")
 	defer r.Finish()
-	r.Rule("case = one actor with its own passivation strategy (time-based T in {300,600}ms, message-count N in {1,3,10}, long-lived) and one arrival script: idle, burst, trickle with gaps T-150/T-60ms, messages inside the 100ms coalescing interval, a message aimed at the expiring deadline, PausePassivation (confirmed by a later handled message) held for 1.5T with and without traffic, suspension (failure without directive) held for 1.5T then Reinstate, Shutdown aimed at the deadline, N-1 / N / paused N+2 messages, one turn longer than T; scenarios of a batch run concurrently on one system with schedule noise in passivation_manager.go and pid.go. Oracle = monitor stamps: for every PostStop run by tryPassivation and every message handled before it, poststop - turn_entry >= T-100ms; no such PostStop inside a confirmed paused / suspended interval; never for long-lived; at least N handled before it for message-count; PostStop count <= 1 per actor and exactly 1 with the actor not running once passivated. non-trivial = the scripted situation was reached (actor alive at the decisive point) and the passivation or hold was observed; distinct by (kind, T, N, offset, seed)")
+	r.Rule("case = one actor with its own passivation strategy (time-based T in {300,600}ms, message-count N in {1,3,10}, long-lived) and one arrival script: idle, burst, trickle with gaps T-150/T-60ms, messages inside the 100ms coalescing interval, a message aimed at the expiring deadline, PausePassivation (confirmed by a later handled message) held for 1.5T with and without traffic, suspension (failure without directive) held for 1.5T then Reinstate, Shutdown aimed at the deadline, N-1 / N / paused N+2 messages, one turn longer than T; 40 scenarios run concurrently on one system with schedule noise in passivation_manager.go and the stop path of pid.go. Monitors: turn-entry (H1 hook), handler-entry and PostStop-entry stamps, the stack of every PostStop (passivation = tryPassivation on it), and the deadline carried by the heap entry of every passivation decision (through the manager's passivateFn indirection). Oracle: (a) deadline arithmetic, immune to stalls: for every passivation and every message whose handler was entered before the decision's deadline D, D - turn_entry >= T-100ms; (b) the statement literally: no handler entered less than T-100ms before a passivation PostStop (reported as message-handled-then-passivated / passivated-while-busy); no passivation PostStop inside a confirmed paused or suspended interval; never for long-lived; at least N messages dispatched before it for message-count; PostStop count <= 1 per actor (also after the system stopped) and the actor not running once passivated. non-trivial = the scripted situation was reached and the passivation or the hold was observed; distinct by (kind, T, N, offset, seed)")
 	r.Assume("the H1 turn-entry stamp is taken before the runtime reads its per-turn activity time; wall clock does not step backwards during a scenario")
 	rng := r.Rand(12)
 	n := r.N(120, 2400)
@@ -620,6 +687,7 @@ func TestVerif_C12(t *testing.T) {
 	defer SetVerifTurnHook(nil)
 
 	sys := vfNewSystem(t)
+	c12InstallDecisionHook(sys)
 	hot := verifrt.StartNoise(verifrt.NoiseConfig{
 		Seed: rng.Int63(), GoschedPerMille: 10, HotSites: 3,
 		Candidates:  verifrt.SitesIn("passivation_manager.go", "actor/pid.go:25", "actor/pid.go:26", "actor/pid.go:15"),
@@ -654,10 +722,11 @@ func TestVerif_C12(t *testing.T) {
 			r.Count("messages_handled", int64(res.Handled))
 			r.Count("passivations_observed", int64(res.Passivated))
 			r.Count("poststops_observed", int64(res.Stops))
+			r.Count("passivations_right_after_a_handled_message", int64(res.Literal))
 			if res.MinMargin < time.Hour {
 				r.Max("max_runtime_stamp_to_handler_gap_us", int64(res.MaxGap/time.Microsecond))
 				if res.MinMargin < 20*time.Millisecond {
-					r.Count("passivations_within_20ms_of_the_bound", 1)
+					r.Count("decisions_within_20ms_of_the_bound", 1)
 				}
 			}
 			for _, v := range res.Viol {
